@@ -50,6 +50,12 @@ func runTopoWide(c *engine.Ctx) {
 			}
 		}
 		mode := mode
+		for _, st := range []string{"cross-signed", "twin-intermediate"} {
+			for _, n := range []int{1, 2} {
+				mode, st, n := mode, st, n
+				c.Case(fmt.Sprintf("widen/topo/eku-two-chains/keys=%s/intermediates=%d/%s", mode, n, st), func(t *engine.T) { topoEKUTwoChains(t, mode, n, st) })
+			}
+		}
 		c.Case("widen/topo/start-cert/keys="+mode, func(t *engine.T) { topoStart(t, mode) })
 		c.Case("widen/topo/self-issued/keys="+mode, func(t *engine.T) { topoSelfIssued(t, mode) })
 		for n := 1; n <= 2; n++ {
@@ -144,6 +150,33 @@ func topoEKU(t *engine.T, mode string, n, top int) {
 		t.Nontrivial(fmt.Sprintf("topo/eku/%s/%d/%s", mode, n, label))
 		for _, req := range ekuRequests {
 			runSpecW(t, spec, label, []vtime{vtInside}, []int{0}, req, 0)
+		}
+	}
+}
+
+// topoEKUTwoChains: TWO candidate chains (the intermediate once under the root, once cross-certified under a second
+// trusted root; or an intermediate and its re-issued twin), every pair of extended-key-usage letters on the two
+// alternatives, every request list. Each returned chain is judged on its own: state carried from one candidate chain
+// to the next (a scratch copy of the requested usages, say) shows as a chain that holds for none of them.
+func topoEKUTwoChains(t *engine.T, mode string, n int, structural string) {
+	for a := range ekuAlphabet {
+		for b := range ekuAlphabet {
+			for _, leafL := range []int{0, 5} {
+				spec := buildSpec(mode, n, []deviation{{kind: structural, pos: 1}})
+				if len(spec.extraI) == 0 {
+					t.Fail("topo/eku2/setup", "no alternative intermediate for %s", structural)
+					return
+				}
+				la, lb, ll := ekuAlphabet[a], ekuAlphabet[b], ekuAlphabet[leafL]
+				spec.chain[0].eku, spec.chain[0].ekuUnknown = ll.eku, ll.unknown
+				spec.chain[1].eku, spec.chain[1].ekuUnknown = la.eku, la.unknown
+				spec.extraI[len(spec.extraI)-1].eku, spec.extraI[len(spec.extraI)-1].ekuUnknown = lb.eku, lb.unknown
+				label := fmt.Sprintf("%s@1 eku[leaf=%s, intermediate=%s, alternative=%s]", structural, ll.name, la.name, lb.name)
+				t.Nontrivial(fmt.Sprintf("topo/eku2/%s/%d/%s", mode, n, label))
+				for _, req := range ekuRequests {
+					runSpecW(t, spec, label, []vtime{vtInside}, []int{0, 1}, req, 0)
+				}
+			}
 		}
 	}
 }
